@@ -78,6 +78,33 @@ def stream(seed, rounds):
                 return dict(violation=True, cases=cases, what="operation did not terminate within 20 s", witness=dict(seed=seed, round=r, ops=ops))
             finally:
                 signal.alarm(0)
+            # scripted sequences around the end of the stream: reach the end, seek back, seek to / past the end again (all three whence
+            # modes), then small reads - nothing may come out of a stale read-ahead buffer
+            if n >= 5:
+                for back in (1, n // 2, n - 1):
+                    for how in ("abs-end", "abs-past", "cur-past", "from-end", "from-end-past"):
+                        f = cls(io.BytesIO(raw), "rb")
+                        ref = io.BytesIO(payload)
+                        f.read(); ref.read()
+                        f.seek(back); ref.seek(back)
+                        if how == "abs-end":
+                            got = f.seek(n)
+                        elif how == "abs-past":
+                            got = f.seek(n + 7)
+                        elif how == "cur-past":
+                            got = f.seek(n, 1)
+                        elif how == "from-end":
+                            got = f.seek(0, 2)
+                        else:
+                            got = f.seek(3, 2)
+                        ref.seek(n)
+                        ba = bytearray(4)
+                        obs = (got, f.tell(), f.read(3), f.readline(), f.readinto(ba), f.tell(), f.read())
+                        exp = (n, n, b"", b"", 0, n, b"")
+                        cases += 1
+                        if obs != exp:
+                            return dict(violation=True, cases=cases, what="after the end was reached, seek(%d) then seek to the end (%s): (seek, tell, read(3), readline, readinto, tell, read()) = %r, a byte stream gives %r"
+                                        % (back, how, obs, exp), witness=dict(cls=cls.__name__, n=n, back=back, how=how))
     return dict(violation=False, cases=cases)
 
 
@@ -108,6 +135,45 @@ def damaged(seed, objs):
                     pass
                 finally:
                     signal.alarm(0)
+    # a valid zlib / gzip file followed by extra bytes whose compressed length is a few bytes past a multiple of the reader's block size:
+    # the last raw block then holds nothing but (part of) the checksum trailer and the extra bytes.  Child process with an address-space cap.
+    import subprocess
+    blk = 8192
+    child = ("import io, sys, resource, joblib\n"
+             "resource.setrlimit(resource.RLIMIT_AS, (2 * 1024 ** 3, 2 * 1024 ** 3))\n"
+             "data = open(sys.argv[1], 'rb').read()\n"
+             "try:\n"
+             "    out = joblib.load(io.BytesIO(data))\n"
+             "    print('LOADED', len(out))\n"
+             "except MemoryError:\n"
+             "    print('MEMORYERROR')\n"
+             "except Exception as e:\n"
+             "    print('RAISED', type(e).__name__)\n")
+    import os as _os, tempfile as _tf
+    for method, residues in (("zlib", range(1, 5)), ("gzip", range(1, 9))):
+        base = bytes(rnd.getrandbits(8) for _ in range(3 * blk + 64))
+        found = 0
+        for size in range(2 * blk, 3 * blk + 64):
+            buf = io.BytesIO()
+            joblib.dump(base[:size], buf, compress=(method, 3))
+            raw = buf.getvalue()
+            if len(raw) % blk in residues:
+                found += 1
+                cases += 1
+                with _tf.NamedTemporaryFile(suffix=".pkl", delete=False) as tf:
+                    tf.write(raw + b"extra bytes")
+                try:
+                    pr = subprocess.run([sys.executable, "-c", child, tf.name], capture_output=True, text=True, timeout=60)
+                    verdict = (pr.stdout.strip().splitlines() or ["CRASH rc=%d" % pr.returncode])[-1]
+                except subprocess.TimeoutExpired:
+                    verdict = "TIMEOUT"
+                finally:
+                    _os.unlink(tf.name)
+                if not (verdict.startswith("RAISED") or verdict == "LOADED %d" % size):
+                    return dict(violation=True, cases=cases, what="valid %s file (compressed length %d = %d mod %d) followed by 11 extra bytes: load -> %s" % (method, len(raw), len(raw) % blk, blk, verdict),
+                                witness=dict(compressor=method, payload_size=size, compressed_length=len(raw)))
+                if found >= 3:
+                    break
     # a damaged cache entry makes Memory recompute: every truncation point of output.pkl, plain and compressed
     import os, shutil, tempfile
     from joblib import Memory
